@@ -757,7 +757,7 @@ func genSeq(r *rand.Rand) *SeqCase {
 
 func run(m *mon.M) {
 	r := m.Rand("c09")
-	nruns := m.N(16, 100)
+	nruns := m.N(20, 300)
 	procs := []int{1, 2, 4, 16}
 	for i := 0; i < nruns; i++ {
 		cfg := &RunCfg{Kind: "concurrent", Seed: r.Int63n(1 << 40), Goroutines: []int{8, 16, 32, 64}[r.Intn(4)], PerG: m.N(25, 40), MaxProcs: procs[(i+m.Shard)%len(procs)]}
@@ -769,7 +769,7 @@ func run(m *mon.M) {
 		m.Violate("harness-build-failed", err.Error(), nil)
 		return
 	}
-	nseq := m.N(1500, 30000)
+	nseq := m.N(2500, 100000)
 	for i := 0; i < nseq; i++ {
 		sc := genSeq(r)
 		if i%500 == 0 {
